@@ -44,6 +44,18 @@ func Verif_C17_RpmCompression() {
 			v.Assert(verifInEnum(d, enum), "rpm-compression-accepted-value-is-in-the-schema-enum")
 		}
 	}
+	// a pattern keyword, if the tag has one, must let through every accepted candidate
+	for _, c := range v.PatternCandidates {
+		info := verifInfo("1.0.0", "", "", "", "")
+		info.RPM.Compression = c
+		m, err := buildRPMMeta(info)
+		if err == nil {
+			_, err = newRPM(m)
+		}
+		if err == nil {
+			v.Assert(v.SchemaAllows("RPM.Compression", c), "rpm-compression-accepted-value-passes-the-schema-keywords")
+		}
+	}
 	s := v.NondetString("compression", v.Bound("C17.len", 6, 8))
 	v.Assume(v.AllIn(s, "a-z0-9:-"))
 	info := verifInfo("1.0.0", "", "", "", "")
